@@ -323,6 +323,10 @@ fn chunk_strategy(cfg: ChunkCfg) -> BoxedStrategy<Cs> {
             1 => (34usize..=big.max(35)).prop_map(Cs::Min),
             1 => pow2ish(big.max(35)).prop_map(Cs::Exact),
             2 => pow2ish(big.max(35)).prop_map(Cs::Min),
+            // "every chunk_size setting": astronomically large sizes as well (kept to known-length, non-iterator sources by
+            // `normalise`: a by-value iterator source allocates `c` slots per pull)
+            1 => proptest::sample::select(vec![1usize << 32, 1 << 62, (1 << 62) + 3, 1 << 63, usize::MAX]).prop_map(Cs::Exact),
+            1 => proptest::sample::select(vec![1usize << 32, 1 << 62, (1 << 62) + 3, 1 << 63, usize::MAX]).prop_map(Cs::Min),
         ]
         .boxed(),
         ChunkCfg::Small(m) => prop_oneof![
@@ -597,6 +601,16 @@ pub fn normalise(mut c: Case, cfg: &GenCfg) -> Case {
     }
     if big > 0 && c.input.len() > 48 && !matches!(c.source, Source::ArrayRef) {
         c.input.truncate(48);
+    }
+    // sizes above 2^20 only where a pull does not allocate `c` slots (stated limit of the domain, see C15)
+    if c.source.is_iter_backed() {
+        for p in c.params.iter_mut() {
+            if let ParamKind::Chunk(Cs::Exact(x) | Cs::Min(x) | Cs::Usize(x)) = &mut p.kind {
+                if *x > 1 << 20 {
+                    *x = 1 + (*x % 4096);
+                }
+            }
+        }
     }
     let n = c.chain.len() as u8;
     for p in c.params.iter_mut() {
